@@ -1965,7 +1965,88 @@ fn shape(case: &Case, log: &[Ent]) -> Shape {
     sh
 }
 
+/// `AsyncDispatcher::setup` during which the setup hook of one system panics (caught by the caller),
+/// then the dispatcher is used on: every later `dispatch` + `wait` still runs every ordinary system and then
+/// every thread-local system on the caller, in registration order; a later `setup` reaches every hook.
+/// Self-contained (its own four systems; the hook that panics is each of them in turn).
+fn failed_setup_check() -> (u64, Vec<String>) {
+    use shred::{DispatcherBuilder, System, World};
+    use std::sync::atomic::AtomicBool;
+    type Log = Arc<Mutex<Vec<String>>>;
+    struct S {
+        name: &'static str,
+        log: Log,
+        bad: Arc<AtomicBool>,
+        _not_send: std::marker::PhantomData<*const ()>,
+    }
+    // only the two registered with `with` cross threads; the marker keeps the type usable for both kinds
+    unsafe impl Send for S {}
+    impl<'a> System<'a> for S {
+        type SystemData = ();
+        fn run(&mut self, _: ()) {
+            self.log.lock().unwrap().push(self.name.to_string());
+        }
+        fn setup(&mut self, _: &mut World) {
+            if self.bad.load(SeqCst) {
+                panic!("harness: the setup hook of {} panics", self.name);
+            }
+            self.log.lock().unwrap().push(format!("setup:{}", self.name));
+        }
+    }
+    let mut bad = vec![];
+    let mut n = 0u64;
+    let pool = Arc::new(rayon::ThreadPoolBuilder::new().num_threads(2).panic_handler(|_| {}).build().unwrap());
+    for victim in 0..4usize {
+        n += 1;
+        let log: Log = Arc::new(Mutex::new(vec![]));
+        let flags: Vec<Arc<AtomicBool>> = (0..4).map(|_| Arc::new(AtomicBool::new(false))).collect();
+        let mk = |i: usize, name: &'static str| S { name, log: log.clone(), bad: flags[i].clone(), _not_send: std::marker::PhantomData };
+        let mut d = DispatcherBuilder::new()
+            .with_pool(pool.clone())
+            .with(mk(0, "a"), "a", &[])
+            .with(mk(1, "b"), "b", &["a"])
+            .with_thread_local(mk(2, "x"))
+            .with_thread_local(mk(3, "y"))
+            .build_async(World::empty());
+        flags[victim].store(true, SeqCst);
+        let r = catch_unwind(AssertUnwindSafe(|| d.setup()));
+        flags[victim].store(false, SeqCst);
+        if r.is_ok() {
+            bad.push(format!("the setup hook of system {} panicked but AsyncDispatcher::setup returned normally", victim));
+            continue;
+        }
+        for round in 0..2 {
+            log.lock().unwrap().clear();
+            let r = catch_unwind(AssertUnwindSafe(|| {
+                d.dispatch();
+                d.wait();
+            }));
+            let got = log.lock().unwrap().clone();
+            if r.is_err() || got != ["a", "b", "x", "y"] {
+                bad.push(format!("after a setup() in which the hook of system {} (0, 1 ordinary; 2, 3 thread-local) panicked and was caught, dispatch + wait no. {} {} and ran {:?}; expected a, b, then the thread-local x, y", victim, round + 1, if r.is_err() { "panicked" } else { "returned" }, got));
+                break;
+            }
+        }
+        log.lock().unwrap().clear();
+        let r = catch_unwind(AssertUnwindSafe(|| d.setup()));
+        let mut got = log.lock().unwrap().clone();
+        got.sort();
+        if r.is_err() || got != ["setup:a", "setup:b", "setup:x", "setup:y"] {
+            bad.push(format!("a later setup() after the failed one (hook of system {}) reached {:?}, expected the hooks of a, b, x, y", victim, got));
+        }
+    }
+    (n, bad)
+}
+
 pub fn run(args: &Args, rep: &mut Report) {
+    if args.get("replay").is_none() {
+        let (n, bad) = failed_setup_check();
+        rep.add("dispatchers_used_on_after_a_setup_hook_panicked", n);
+        for b in bad {
+            rep.violate("C12", "impl", "tl-count", format!("{} [failed-setup]", b), vec!["# failed-setup: self-contained sequence, see harness/src/engines/asyncd.rs failed_setup_check".into()]);
+            rep.violate("C13", "impl", "setup-hooks", format!("{} [failed-setup]", b.clone()), vec!["# failed-setup".into()]);
+        }
+    }
     let seed = args.num("seed", 1);
     let cases = args.num("cases", 300);
     let max_ops = args.num("max-ops", 12);
